@@ -141,10 +141,13 @@ fn run_faults(out: &mut Out, kind: &str, key: &[u8], b: &[u8]) {
     let Some(&(_, off, len)) = t.iter().find(|x| x.0 == ty) else { out.imp("-"); out.rec("J tried=0"); return };
     let hk = HMACKey::new_short_term(std::str::from_utf8(key).unwrap()).unwrap();
     let dec_v = decoder(true, true, false, false, key);
+    let dec_nokey = decoder(false, true, false, false, key);
     let accepted = |x: &[u8]| -> bool {
         // "accepted as authenticated / as carrying a valid FINGERPRINT": the validating decoder returns a message that
         // contains the attribute, or the public validate API says yes for the first attribute of the kind
-        let by_decode = guarded(|| dec_v.decode(x)).ok().and_then(|r| r.ok()).map(|(m, _)| m.attributes().iter().any(|a| a.attribute_type().as_u16() == ty)).unwrap_or(false);
+        let has = |d: &MessageDecoder| guarded(|| d.decode(x)).ok().and_then(|r| r.ok()).map(|(m, _)| m.attributes().iter().any(|a| a.attribute_type().as_u16() == ty)).unwrap_or(false);
+        // FINGERPRINT needs no key: a validating decoder WITHOUT a key must reject a wrong FINGERPRINT as well
+        let by_decode = has(&dec_v) || (kind == "FP" && has(&dec_nokey));
         let by_api = guarded(|| {
             let (m, _) = decoder(true, false, false, true, key).decode(x).ok()?;
             let a = m.attributes().iter().find(|a| a.attribute_type().as_u16() == ty)?;
@@ -213,6 +216,7 @@ fn gen_msg(rng: &mut Rng, key: &[u8]) -> Vec<u8> {
 /// encoded by stun-rs itself), with an integrity / fingerprint tail
 fn gen_typed_msg(rng: &mut Rng, key: &[u8], round: u64) -> Vec<u8> {
     let txid: [u8; 12] = rng.bytes(12).try_into().unwrap();
+    *av::TXID_HINT.lock().unwrap() = txid;
     let mut r = Raw::new(rng.below(0x1000) as u16, rng.below(4) as u8, &txid);
     for _ in 0..rng.range(1, 4) {
         let (ty, fam) = *rng.pick(&av::KINDS);
@@ -337,6 +341,23 @@ fn main() {
         match rng.below(10) {
             0..=3 => { run_case(&mut out, &key, &base); structured += 1 }
             4..=7 => { let m = mutate(&mut rng, &base); let m = if rng.chance(1, 4) { mutate(&mut rng, &m) } else { m }; run_case(&mut out, &key, &m); mutated += 1 }
+            8 if i % 3 == 0 => {
+                // the 16-bit header length at its upper end (20 + length no longer fits 16 bits), on a bare header and on a
+                // real message; and messages close to the 64 KiB limit (once per shard: the model walks 65,000 list cells)
+                let l = *rng.pick(&[0xFFEBu16, 0xFFEC, 0xFFED, 0xFFF0, 0xFFFB, 0xFFFC, 0xFFFF, 0xFFE8, 0x8000]);
+                let mut x = if rng.chance(1, 2) { base.clone() } else { let t: [u8; 12] = rng.bytes(12).try_into().unwrap(); Raw::new(1, 0, &t).bytes };
+                if x.len() >= 20 { x[2..4].copy_from_slice(&l.to_be_bytes()); }
+                run_case(&mut out, &key, &x); random += 1;
+                if i == 0 {
+                    for total in [65516usize, 65528, 65532] {
+                        let t: [u8; 12] = rng.bytes(12).try_into().unwrap();
+                        let mut r = Raw::new(1, 2, &t);
+                        let mut left = total;
+                        while left > 0 { let chunk = left.min(16384); r.push(0xC001, &vec![0x61u8; chunk - 4]); left -= chunk; }
+                        run_case(&mut out, &key, &r.bytes); structured += 1;
+                    }
+                }
+            }
             8 => {
                 let l = rng.below(60) as usize;
                 let mut x = rng.bytes(l);
@@ -360,14 +381,27 @@ fn main() {
         }
     }
     // key derivation over generated user / realm / password strings (ASCII printable, with controls, empty, non-ASCII)
-    let nkeys = if args.thorough { 4000 } else { 200 };
+    let nkeys = if args.thorough { 6000 } else { 400 };
     let mut keys = 0u64;
     for k in 0..nkeys {
         if k % args.shards != args.shard { continue }
         let mut gs = |rng: &mut Rng| -> Vec<u8> {
             let n = *rng.pick(&[0usize, 1, 2, 5, 9, 30, 64, 65, 200]);
             let mut v: Vec<u8> = (0..n).map(|_| 0x20 + rng.below(0x5F) as u8).collect();
-            match rng.below(12) { 0 if n > 0 => v[0] = 0x09, 1 if n > 0 => { v[n - 1] = 0x7F } 2 => v.extend_from_slice("\u{e9}".as_bytes()), _ => {} }
+            match rng.below(12) {
+                0 if n > 0 => v[0] = 0x09,
+                1 if n > 0 => { v[n - 1] = 0x7F }
+                2 => v.extend_from_slice("\u{e9}".as_bytes()),
+                // non-ASCII spaces (the OpaqueString profile maps them to U+0020) at a random place
+                3 | 4 | 5 => {
+                    let sp = *rng.pick(&["\u{a0}", "\u{1680}", "\u{2000}", "\u{2003}", "\u{200a}", "\u{202f}", "\u{205f}", "\u{3000}", "\u{a0}\u{3000}"]);
+                    let at = rng.below(v.len() as u64 + 1) as usize;
+                    let tail = v.split_off(at);
+                    v.extend_from_slice(sp.as_bytes());
+                    v.extend_from_slice(&tail);
+                }
+                _ => {}
+            }
             v
         };
         let line = if k % 3 == 0 {
